@@ -107,6 +107,16 @@ for lw_list in ([0.3, -jnp.inf, -0.7, -jnp.inf], [-jnp.inf, 0.1], [0.2, 0.4, -jn
     got = float(pc.log_marginal_likelihood())
     if abs(got - want) > 1e-5:
         fails.append({"weights": [str(v) for v in lw_list], "function": "log_marginal_likelihood", "observed": got, "required": want})
+    # a dead particle (weight exactly 0) is never copied, the others get floor / ceil of N w_i copies
+    wn = _np.array([0.0 if v == -jnp.inf else math.exp(v) for v in lw_list]); wn = wn / wn.sum()
+    for u in (0.001, 0.3, 0.6, 0.999):
+        U["u"] = u
+        r = S.resample(pc, method="systematic")
+        src = _np.asarray(r.traces._choices["x"]) / 10.0
+        counts = [int((src == i).sum()) for i in range(n)]
+        if any(not (math.floor(n * wn[i] - 1e-6) <= counts[i] <= math.ceil(n * wn[i] + 1e-6)) for i in range(n)):
+            fails.append({"weights": [str(v) for v in lw_list], "method": "systematic", "u": u, "observed_copies": counts, "required_N_times_w": [round(float(n * v), 3) for v in wn]})
+            break
     U["u"] = None
     r = S.resample(pc, method="categorical")
     got_r = float(r.log_marginal_estimate)
